@@ -444,6 +444,15 @@ class ConfigParser(object):
       # ... or not text at all.
       raise ConfigParserException("Could not read potential definition, it is not a text file: {}".format(e))
 
+    # (any iterable may be given: both are walked more than once below)
+    overrides = list(overrides)
+    additional = list(additional)
+    for override in overrides + additional:
+      # An empty section name would be taken for the parser's default section by has_option()
+      if not override.section.strip() or not override.key.strip():
+        raise ConfigOverrideException("Entry [{section}]: '{key}' does not name an item: section name and key cannot be empty".format(
+          section = override.section, key = override.key))
+
     # Process overrides
     for override in overrides:
       if not cp.has_option(override.section, override.key):
